@@ -135,7 +135,7 @@ RLExpect(c) ==
 RLValsEq(dtE, qE, dtO, qO) == Len(qE) = Len(qO) /\ \A i \in DOMAIN qE :
    LET e == IF IsFlt(dtE) = IsFlt(dtO) \/ IsFlt(dtE) THEN qE[i] ELSE <<qE[i], 1>>
        o == IF IsFlt(dtE) = IsFlt(dtO) \/ IsFlt(dtO) THEN qO[i] ELSE <<qO[i], 1>>
-   IN e = o \/ (e = <<0, 1>> /\ o = <<0, -1>>)               \* an arithmetic zero of either sign (see Judge!NumEq)
+   IN e = o \/ ((IsFlt(dtE) \/ IsFlt(dtO)) /\ e = <<0, 1>> /\ o = <<0, -1>>)               \* an arithmetic zero of either sign (see Judge!NumEq)
 JudgeRL(exp, out, strict) ==      \* exp = <<"rl", dt, dense, needNoAdj>>, out = <<"rl", dt, dense, events, values>>
   IF out[1] # "rl" THEN "kind"
   ELSE IF strict /\ exp[2] # out[2] THEN "dtype"
